@@ -240,6 +240,31 @@ def handle : P String := do
     match dfRead file [] [] with
     | none => pure "ABORT"
     | some (s2, b2) => pure s!"F {showHex file} S {showHex s2} B {showHex b2}"
+  | "multi" =>
+    -- k containers written back to back into one stream (after `njunk` junk bytes), read back in order
+    let _ ← nat; let njunk ← nat; let k ← nat
+    let objs ← many k (do
+      let kind ← tok; let dt ← nat
+      let c ← kindP kind dt
+      pure (kind, dt, c))
+    if objs.any (fun o => assignAborts (o.2.1 == 8) (o.2.1 == 8) o.2.2) then pure "ABORT" else
+    let junk : Bytes := (List.range njunk).map fun i => UInt8.ofNat ((i * 37 + 11) % 256)
+    let recs := objs.map fun o =>
+      (({ magic := magicOf o.1, hashDT := hashDT o.2.1, hashIT := hashIT o.2.1 } : Tag), toTc o.2.1 8 8 o.2.2)
+    let buf := junk ++ writeAll 8 8 recs
+    -- sequential reads; every object is converted back to its memory types
+    let rec go (os : List (String × Nat × Container)) (pos : Nat) (acc : List String) : Option (List String) :=
+      match os with
+      | [] => some acc.reverse
+      | (kind, dt, orig) :: rest =>
+        match readFrom (magicOf kind) 8 8 buf pos with
+        | none => none
+        | some (r, pos') =>
+          let back := convert (cvData 8 dt) id r
+          go rest pos' (s!"P {pos'} {showDump dt back} EQ {eqFlag orig back}" :: acc)
+    match go objs njunk [] with
+    | none => pure "ABORT"
+    | some outs => pure (" ".intercalate (["B", showHex buf] ++ outs))
   | "cpmiss" =>
     -- restore an identifier that was never registered: `restore_object` asserts (reported, not silently wrong)
     let missing ← tok; let n ← nat
